@@ -48,7 +48,7 @@ func (g *gen) genLocalPackage(p *pkgInfo) {
 	r := g.r
 	nJ5s := 1
 	if g.cfg.MaxFilesPerPackage > 1 {
-		w := []int{40, 42, 18}[:g.cfg.MaxFilesPerPackage]
+		w := []int{44, 40, 16}[:g.cfg.MaxFilesPerPackage]
 		nJ5s = 1 + g.weighted(w)
 	}
 	nProto := g.weighted([]int{48, 44, 8})
@@ -102,14 +102,14 @@ func (g *gen) genJ5sFile(p *pkgInfo, src string) {
 	// The printer re-serialises the whole file descriptor for every
 	// descriptor it prints (quadratic), and entities / services expand into
 	// many messages: at most one entity and one service per file.
-	w := []int{eObject: 28, eOneof: 12, eEnum: 18, eEntity: 17, eService: 15, eTopic: 13}
+	w := []int{eObject: 24, eOneof: 11, eEnum: 16, eEntity: 15, eService: 17, eTopic: 17}
 	for i := 0; i < nElem; i++ {
 		// L3: the first element must put an object into the main file
 		// (an entity does that too)
 		kind := eObject
 		if i > 0 {
 			kind = g.weighted(w)
-		} else if r.chance(22) {
+		} else if r.chance(15) {
 			kind = eEntity
 		}
 		if kind == eEntity || kind == eService {
@@ -339,7 +339,7 @@ func (g *gen) renderEnum(kw, name string, opts *[]string) []string {
 		out = append(out, "")
 		g.feat("enum_info_fields")
 	}
-	n := r.between(2, 5)
+	n := r.between(2, 4)
 	out = append(out, indent(g.enumOptionsKW("option", n, opts, keySet))...)
 	out = append(out, "}")
 	g.feat("enum")
@@ -374,8 +374,8 @@ func (fg *fileGen) renderObject(kw, name string) []string {
 		fields = append(fields, c.anchor("field", names)...)
 	}
 	out = append(out, indent(fields)...)
-	if r.chance(22) {
-		nn := r.between(1, 2)
+	if r.chance(18) {
+		nn := g.weighted([]int{0, 70, 30})
 		subs := g.distinct([]string{"SubAlpha", "SubBeta", "SubGamma"}, nn)
 		for _, s := range subs {
 			// L8: nested declarations can not be referenced; L9: no ancestor refs
@@ -383,7 +383,7 @@ func (fg *fileGen) renderObject(kw, name string) []string {
 			out = append(out, "")
 			out = append(out, "  object "+s+" {")
 			out = append(out, indent(indent(g.descLines("object_desc", 30)))...)
-			out = append(out, indent(indent(nc.properties("field", r.between(1, 3), 1, newFieldNames(), true)))...)
+			out = append(out, indent(indent(nc.properties("field", r.between(1, 2), 1, newFieldNames(), true)))...)
 			out = append(out, "  }")
 			g.feat("nested_object_decl")
 		}
